@@ -3,7 +3,7 @@ import json, re
 from .. import core
 from . import stackcommon as sc
 
-EMITS = set("S V Q G A P R X E B ST CB TXT RACE".split())
+EMITS = set("S V Q G A P PM R X E B ST CB TXT RACE".split())
 
 ADV_SETUP = ["wrongcode", "wrongproof", "noproof", "a0", "aN", "a2N", "aempty", "m5first", "start", "m3wrong", "m5zerokey",
              "m5randkey", "badstep", "badmethod", "garbage", "aNforged", "a0forged", "aemptyforged", "wrongcodezero", "m5zeroempty", "m5emptyhkdf"]
@@ -525,9 +525,20 @@ def gen_c11(rng, tier):
                 # of ANOTHER accessory that happens to have the same instance id changes
                 ops += ["P:b:3.12:-:1", "L:4.12:%s" % sc.num(rng.randrange(50)), "W", "E:b",
                         "P:b:4.9:-:1", "L:4.13:%s" % jstr("w%d" % rng.randrange(100)), "W", "E:b"]
+            elif r < 0.96:
+                # several entries in ONE write: a subscription that must be refused (no event permission) followed by entries
+                # that are accepted
+                bad = rng.choice(["4.13", "1.5", "4.12"])
+                ops += ["PM:b:%s~-~1+2.9~-~1" % bad, "PM:b:%s~-~1+2.9~%s~-+3.12~-~1" % (bad, rng.choice(["true", "false"])), "W", "E:b"]
+            elif r < 0.98:
+                # write + events but not readable: subscribers learn that it changed, never the value
+                ops += ["P:b:4.15:-:1", "P:a:4.15:%s:-" % jstr("secret%d" % rng.randrange(100)), "W", "E:b", "L:4.15:%s" % jstr("local%d" % rng.randrange(100)), "W", "E:b", "G:b:4.15", "A:b"]
             else:
                 ops += ["P:a:2.9:%s:-" % rng.choice(["true", "false"]), "W", "E:b", "CB"]
         mk(cases, "perms", ops)
+    # directed
+    mk(cases, "perms", ["N:a", "S:a:c0:ok", "V:a:c0:ok", "N:b", "V:b:c0:ok", "PM:b:4.13~-~1+2.9~-~1", "PM:b:1.5~-~1+4.14~-~1+2.9~true~-", "L:2.9:false", "W", "E:b"])
+    mk(cases, "perms", ["N:a", "S:a:c0:ok", "V:a:c0:ok", "N:b", "V:b:c0:ok", "P:b:4.15:-:1", "P:a:4.15:%s:-" % jstr("secret"), "W", "E:b", "L:4.15:%s" % jstr("local"), "W", "E:b", "G:b:4.15", "A:b"])
     return cases
 
 
@@ -555,6 +566,13 @@ def oracle_c11(c, obs):
                 evref.add(cid)
                 if "!-70406" not in tok:
                     return "subscribing to %s (no event permission) was not rejected with a status: %s" % (cid, tok)
+        if p[0] == "PM":
+            for ent in p[2].split("+"):
+                cid, val, ev = ent.split("~")
+                if val != "-" and "w" not in rows[cid]["perms"]:
+                    nowrite.add(cid)
+                if ev != "-" and "e" not in rows[cid]["perms"] and (cid + "!-70406") not in tok:
+                    return "subscribing to %s (no event permission) inside a write of several entries was not rejected with a status: %s" % (cid, tok[:100])
         if p[0] == "G":
             for e in re.sub(r",canary=\d$", "", tok.split(":", 1)[1] if ":" in tok else "").split(","):
                 cid = e.split("=")[0].split("!")[0]
@@ -579,6 +597,8 @@ def oracle_c11(c, obs):
                 cid = e.split("=")[0]
                 if cid in rows and "e" not in rows[cid]["perms"]:
                     return "an event was delivered for %s which does not permit events" % cid
+                if cid in rows and "r" not in rows[cid]["perms"] and "=" in e and e.split("=", 1)[1] not in ("null", ""):
+                    return "an event reveals the value of %s, which has no read permission, to a subscriber: %s" % (cid, e[:60])
     return None
 
 
@@ -638,6 +658,17 @@ def gen_c10(rng, tier):
                 ops += ["P:c1:3.12:%s:-" % sc.num(b)]
             ops += ["W", "E:c0", "E:c1"]
         mk(cases, "atbound", ops)
+    for i in range(4 if tier == "quick" else 40):
+        # the application has a read callback on an observable characteristic that lags behind what is written (hardware
+        # follows asynchronously): writes and local sets are still notified once, to the subscribed others, with the value
+        # written (no read of the characteristic happens while the callback is installed)
+        ch, lag, vals = rng.choice([("2.9", "false", ["true"]), ("3.12", sc.num(12), [sc.num(20.5), sc.num(30)]), ("4.14", sc.num(7), [sc.num(9), sc.num(4000000000)])])
+        ops = ["N:p", "S:p:c0:ok", "N:c0", "V:c0:c0:ok", "N:c1", "V:c1:c0:ok", "N:c2", "V:c2:c0:ok", "P:c0:%s:-:1" % ch, "P:c1:%s:-:1" % ch,
+               "GCB:%s:%s" % (ch, lag)]
+        for v in vals:
+            ops += [rng.choice(["P:c0:%s:%s:-" % (ch, v), "L:%s:%s" % (ch, v)]), "W", "E:c0", "E:c1", "E:c2"]
+        ops += ["GCB:%s:-" % ch, "G:c2:%s" % ch]
+        mk(cases, "lagging-getter", ops)
     return cases
 
 
@@ -713,8 +744,10 @@ def gen_c13(rng, tier):
         ops = ["N:h", "S:h:c0:ok"]
         x = "x"
         ops.append("N:x")
-        state = rng.choice(["fresh", "after-start", "after-m3", "after-vstart", "verified"])
-        if state == "after-start":
+        state = rng.choice(["fresh", "after-start", "after-m3", "after-vstart", "verified", "after-setup"])
+        if state == "after-setup":
+            ops.append("S:x:e0:ok")       # a complete, correct pair-setup on this very connection
+        elif state == "after-start":
             ops.append("S:x:e1:start")
         elif state == "after-m3":
             ops += ["S:x:e1:start", "S:x:e1:m3"]
